@@ -75,6 +75,7 @@ def new_node(eng, st, ci, tag, root=None, name=""):
     st.assume(d > 1000, d < st.g["Alloc"])
     rec.fields["_data"] = Z(VRef(d), kind, {"owner": obj})
     st.data_owner[str(d)] = obj
+    st.assume(st.sel("CView", d) == st.sel("View", z3.IntVal(obj.addr)))
     bb = backend_base(ci)
     if root is None:
         rec.fields["_root"] = Const(None)
@@ -112,6 +113,7 @@ def make_scene(eng, cname, role, rootkind=None, second=False):
     st.g["Res"] = smt.fresh("Res", smt.ArrVV)
     st.g["Wr"] = smt.fresh("Wr", smt.ArrVI)
     st.g["Depth"] = smt.fresh("Depth", smt.ArrII)
+    st.g["CView"] = smt.fresh("CView", smt.ArrIV)    # plain view per CONTAINER object (shared-memory buffer aliasing)
     st.g["FS"] = smt.fresh("FS", smt.ArrVV)          # filename -> bytes (VAbsent: no such file)   [E-FS]
     st.g["Meta"] = smt.fresh("Meta", smt.ArrVV)      # filename -> (st_size, st_mtime_ns) token
     st.g["FsTick"] = smt.fresh("FsTick", IntS)
